@@ -647,7 +647,11 @@ func (sc *SubCache[EntityT, ExcerptT, CacheT]) evictIfNeeded() {
 		return
 	}
 
-	for _, id := range sc.lru.GetOldestToNewest() {
+	// the most recently used entity is the one being handed out to the caller (Resolve, add):
+	// it is never evicted, even when every older entity has to stay because of uncommitted
+	// operations. Evicting it would return a locked entity and lose its excerpt.
+	ids := sc.lru.GetOldestToNewest()
+	for _, id := range ids[:len(ids)-1] {
 		b := sc.cached[id]
 		if b.NeedCommit() {
 			continue
